@@ -1,6 +1,7 @@
 package checks
 
 import (
+	"bytes"
 	"encoding/json"
 	"fmt"
 	"io"
@@ -257,8 +258,30 @@ func (c c10Case) buildOn(s *store.Store, x *xplore.Ctx) string {
 	var err error
 	switch c.Kind {
 	case "file":
+		// how the bytes reach the builder (free choice): through the fragmenting
+		// reader, or as a reader with extra capabilities a builder might probe
+		// (io.Seeker / Len()) positioned at the start of the content, or positioned
+		// there after a prefix that is not part of the file
+		var src io.Reader
+		data := c.File.content()
+		switch x.ChooseFree(5, "source-kind") {
+		case 0:
+			src = &fragReader{data: data, x: x}
+		case 1:
+			src = bytes.NewReader(data)
+		case 2:
+			br := bytes.NewReader(append([]byte("preceding record: not part of the file"), data...))
+			br.Seek(int64(br.Len()-len(data)), io.SeekStart)
+			src = br
+		case 3:
+			src = bytes.NewBuffer(append([]byte{}, data...))
+		case 4:
+			sr := io.NewSectionReader(bytes.NewReader(append([]byte("xx"), data...)), 2, int64(len(data)))
+			sr.Seek(0, io.SeekStart)
+			src = sr
+		}
 		gen.WithWidth(c.File.W, func() {
-			root, sz, err = gen.BuildOurs(s, &fragReader{data: c.File.content(), x: x}, c.File.Chunker)
+			root, sz, err = gen.BuildOurs(s, src, c.File.Chunker)
 		})
 	case "sharded", "plain", "quick":
 		es := c.entries(s)
